@@ -24,6 +24,12 @@ OBJECTS = {
     "et205mid": ("ET", "ETU", 8899, "v2", 47547), "et745big": ("ET", "ETT", 8899, "v2", 47547), "et205big": ("ET", "ETU", 502, "v2", 47547),
 }
 OBJECTS.update({"dt3_f7": OBJECTS["dt3"], "et205_7f": OBJECTS["et205"], "et745tcp_01": OBJECTS["et745tcp"]})
+# one object type per model tag: read_device_info branches on the tag (phases, MPPT count, platform, second battery)
+from .checks_inverter import et_tags, dt_tags  # noqa: E402
+for _t in et_tags("thorough"):
+    OBJECTS["v_ET_" + _t] = ("ET", _t, 8899, "v2", 47547)
+for _t in dt_tags("thorough"):
+    OBJECTS["v_DT_" + _t] = ("DT", _t, 8899, "", 0)
 RATED = {"et205mid": 15000, "et745big": 25000, "et205big": 29900}
 COMM_ADDR = {"dt3_f7": 0xF7, "et205_7f": 0x7F, "et745tcp_01": 0x01}     # same registers, another communication address
 PAIRS = [("et205", "et745"), ("et205", "es_v1"), ("es_v1", "es_v2"), ("et205tcp", "et745tcp"), ("et745", "et745"),
@@ -296,6 +302,17 @@ def check(prop: str, tier: str, seed: int) -> int:
                 jobs.append({"pair": [a, b], "s1": s1, "s2": s2, "priors": ["zeros", "zeros"],
                              "shuffles": dshuffles(len(s1) + 1, len(s2) + 1, quick, rnd),
                              "inv": [obj_spec(a, rnd, "zeros", fa), obj_spec(b, rnd, "zeros", fb)]})
+    # directed: two objects of one family with different model tags (every tag class against every other, both orders):
+    # what one object learns about its model must not show in the other
+    for fam, tags, reps in (("ET", et_tags(tier), et_tags("quick")), ("DT", dt_tags(tier), dt_tags("quick"))):
+        for ta in tags:
+            for tb in tags:
+                if ta not in reps and tb not in reps:
+                    continue
+                a, b = f"v_{fam}_{ta}", f"v_{fam}_{tb}"
+                jobs.append({"pair": [a, b], "s1": [rrd], "s2": [rrd], "priors": ["zeros", "zeros"],
+                             "shuffles": shuffles(2, 2) if not quick else dshuffles(2, 2, quick, rnd),
+                             "inv": [obj_spec(a, rnd, "zeros", "random"), obj_spec(b, rnd, "zeros", "random")]})
     res = engine.parallel_map("harness.checks_shuffle", "run_shuffle", jobs, procs=16, chunk=2)
     cases, src, inter = judge_results(run, res)
     from . import checks_sim
